@@ -796,12 +796,12 @@ def rule_repr_only(ctx, only=("Matcher::fuzzy_matcher_impl", "Matcher::fuzzy_mat
         found += 1
         # arms: blocks reached by fixing both discriminants
         first = [bi for bi, e in sw.items() if not any(fn.dominates(o, bi) and o != bi for o in sw)]
-        if len(first) != 1:
+        if not first:
             ctx.fail_closed("%s: cannot identify the outer representation switch" % fn.path)
             continue
-        f0 = first[0]
-        t0 = fn.blocks[f0]["term"]
-        for v0, b0 in t0["arms"] + [[None, t0["otherwise"]]]:
+        seen_keys = set()
+        # several dispatches in one body (one to pick a prefilter, one to pick a matcher): each is looked at
+        for f0, v0, b0 in [(f_, v_, b_) for f_ in sorted(first) for v_, b_ in fn.blocks[f_]["term"]["arms"] + [[None, fn.blocks[f_]["term"]["otherwise"]]]]:
             if b0 not in fn.live or fn.blocks[b0]["term"]["k"] == "unreachable":
                 continue
             inner = [bi for bi in sw if bi != f0 and (bi == b0 or (fn.dominates(b0, bi)))]
@@ -831,6 +831,9 @@ def rule_repr_only(ctx, only=("Matcher::fuzzy_matcher_impl", "Matcher::fuzzy_mat
                 names = {0: "Ascii", 1: "Unicode", None: "other"}
                 arm = "(%s, %s)" % (names.get(v0, v0), names.get(v1, v1))
                 if not calls and not reads_payload and rets and all(r[0] in ("agg", "const") for r in rets):
+                    if (fn.path, arm) in seen_keys:
+                        continue
+                    seen_keys.add((fn.path, arm))
                     ctx.violation("%s|repr-arm|%s" % (fn.path, arm), site(fn, b1),
                                   "arm %s returns %s without looking at either string: the accept/reject decision depends on the representation alone "
                                   "(an ASCII needle held as code points, e.g. one containing CR LF, never matches an ASCII haystack)" % (arm, show(rets[0])))
@@ -990,7 +993,68 @@ def rule_decider_before_score(ctx):
                           "Some(calculate_score(..)) is returned where only %s has looked at the haystack (%s): a window whose interior does not contain the needle is "
                           "reported as a match (haystack \"é axc\", needle \"abc\"), while the greedy entry point says None" % (
                               ", ".join(sorted(set(callee(pt).rsplit("::", 1)[1] for pb, pt in doms))) or "no prefilter", comp[callee(doms[0][1])][1] if doms else "nothing"))
-    ctx.floor("direct calculate_score calls in the fuzzy dispatchers", n, 2)
+    ctx.floor("direct calculate_score calls in the fuzzy dispatchers", n, 1)
+
+
+def rule_greedy_scan_start(ctx):
+    """For a code-point haystack the greedy matcher's forward scan for needle[1..] STARTS at its `end` argument (for
+    ASCII x ASCII the scan is compiled out and `end` is the prefilter's greedy end).  Whatever lies between the
+    character needle[0] matched and `end` is never looked at: the relation is decided completely only if every
+    non-ASCII call passes end = start + 1 (directly, through forwarded parameters, or through a result carried in a
+    private enum / struct).  A window end handed in as `end` makes the scan start behind the last occurrence of the
+    last needle character: None for a haystack that contains the needle."""
+    from common import alternatives_tagged, tags_agree, resolve_under
+    from cfg import poly_of, Poly
+    facts = ctx.facts
+    GREEDY = "fuzzy_greedy::<impl Matcher>::fuzzy_match_greedy_"
+    g = get_fn(facts, M, GREEDY)
+    names = {g.names.get(l): l for l in range(1, g.arg_count + 1)}
+    if "start" not in names or "end" not in names:
+        raise Inconclusive("fuzzy_match_greedy_: parameters `start` / `end` not found")
+    n = [0]
+
+    def judge(f2, bi, t, si, ei, depth):
+        fa = [str(x) for x in (t.get("fn_args") or [])] if isinstance(t.get("fn_args"), list) else str(t.get("fn_args") or "").strip("[]").split(", ")
+        if len(fa) >= 2 and fa[-2].endswith("AsciiChar") and fa[-1].endswith("AsciiChar"):
+            return
+        s_e = strip_casts(f2.expr_of_operand(t["args"][si]))
+        e_e = strip_casts(f2.expr_of_operand(t["args"][ei]))
+        sa, ea = alternatives_tagged(f2, s_e), alternatives_tagged(f2, e_e)
+        pairs = [(strip_casts(resolve_under(f2, s1, tuple(ts) + tuple(te))), strip_casts(resolve_under(f2, e1, tuple(ts) + tuple(te)))) for ts, s1 in sa for te, e1 in ea if tags_agree(ts, te) and tags_agree(te, ts)]
+        for s1, e1 in pairs or [(s_e, e_e)]:
+            n[0] += 1
+
+            def at(x, s1=s1):
+                return "S" if repr(strip_casts(x)) == repr(s1) else None
+            d = poly_of(e1, at) - Poly.atom("S")
+            if not d.atoms() and not d.has_opaque():
+                k = int(d.t.get((), 0))
+                if k == 1:
+                    ctx.ok(site(f2, bi), "code-point call passes end = start + 1: the forward scan starts right behind needle[0]'s match")
+                elif k > 1:
+                    ctx.violation("%s|greedy-scan-start|%s" % (f2.path, callee(t).rsplit("::", 1)[1]), site(f2, bi),
+                                  "code-point call passes end = start + %d: the %d character(s) behind needle[0]'s match are never compared, a haystack that contains the needle there gets None" % (k, k - 1))
+                continue
+            if s1[0] == "arg" and e1[0] == "arg" and depth < 3:
+                m_ = 0
+                for f3, b3, t3 in calls_to(facts, M, lambda t_: callee(t_) == f2.path):
+                    m_ += 1
+                    judge(f3, b3, t3, s1[1] - 1, e1[1] - 1, depth + 1)
+                if m_:
+                    continue
+            txt_s, txt_e = show(s1), show(e1)
+            if s1[0] == "field" and e1[0] == "field" and "prefilter_ascii" in txt_s and s1[2] == "0" and e1[2] == "1" and repr(s1[1]) == repr(e1[1]):
+                ctx.ok(site(f2, bi), "(start, greedy_end) of one prefilter_ascii result (only reached with an ASCII haystack)")
+                continue
+            if e1[0] == "field" and "prefilter::<impl Matcher>::prefilter_" in txt_e and ((("prefilter_non_ascii" in txt_e) and e1[2] == "1") or (("prefilter_ascii" in txt_e) and e1[2] == "2")):
+                ctx.violation("%s|greedy-scan-start|%s" % (f2.path, callee(t).rsplit("::", 1)[1]), site(f2, bi),
+                              "code-point call passes the END of the prefilter window as `end` (%s): the forward scan for needle[1..] starts behind the last occurrence of the last needle "
+                              "character and answers None for a haystack that contains the needle" % txt_e[:80])
+                continue
+            ctx.fail_closed("%s: cannot relate the `end` argument of the greedy matcher (%s) to `start` (%s)" % (f2.path, txt_e[:70], txt_s[:70]))
+    for f2, bi, t in calls_to(facts, M, lambda t_: callee(t_) == GREEDY):
+        judge(f2, bi, t, names["start"] - 1, names["end"] - 1, 0)
+    ctx.floor("code-point call sites of fuzzy_match_greedy_ judged", n[0], 1)
 
 
 def rule_window_complete(ctx):
@@ -1035,15 +1099,20 @@ def rule_window_complete(ctx):
         if f2.path == OPT and is_arg(e, names["end"]):
             ctx.ok(site(f2, bi), "recursive call forwards its own `end`")
             continue
-        good = False
-        if e[0] == "field":
-            src = [x for x in walk(e[1]) if x[0] == "call" and "prefilter::<impl Matcher>::prefilter_" in str(x[1])]
-            if src:
-                pc = src[0]
-                og = strip_casts(pc[2][-1])
-                last = {"prefilter_ascii": "2", "prefilter_non_ascii": "1"}.get(str(pc[1]).rsplit("::", 1)[1])
-                if og[0] == "const" and og[1] in (0, False) and e[2] == last:
-                    good = True
+        def full_window_end(e_):
+            e_ = strip_casts(e_)
+            if e_[0] != "field":
+                return False
+            src = [x for x in walk(e_[1]) if x[0] == "call" and "prefilter::<impl Matcher>::prefilter_" in str(x[1])]
+            if not src:
+                return False
+            pc = src[0]
+            og = strip_casts(pc[2][-1])
+            last = {"prefilter_ascii": "2", "prefilter_non_ascii": "1"}.get(str(pc[1]).rsplit("::", 1)[1])
+            return og[0] == "const" and og[1] in (0, False) and e_[2] == last
+        from common import alternatives
+        alts = alternatives(f2, e)
+        good = bool(alts) and all(full_window_end(a) for a in alts)
         if good:
             ctx.ok(site(f2, bi), "`end` is the end of the full prefilter window (only_greedy = false)")
         else:
@@ -1474,4 +1543,5 @@ def rules(ctx):
     ctx.run_rule("C01.char-eq-exact", rule_char_eq_exact)
     ctx.run_rule("C01.greedy-complete", rule_greedy_complete)
     ctx.run_rule("C01.window-complete", rule_window_complete)
+    ctx.run_rule("C01.greedy-scan-start", rule_greedy_scan_start)
     ctx.run_rule("C01.decider-before-score", rule_decider_before_score)
